@@ -1,6 +1,7 @@
 package eng
 
 import (
+	"os"
 	"crypto/sha256"
 	"fmt"
 	"go/token"
@@ -29,6 +30,9 @@ func (e *Engine) freshInt(tag string, lo, hi int64) *Term {
 	t := e.fresh(tag, "int", BV64)
 	nd := e.nondets[len(e.nondets)-1]
 	nd.Lo, nd.Hi = lo, hi
+	if lo >= 0 {
+		e.tb.SetVarUB(t, uint64(hi))
+	}
 	// range constraint holds unconditionally (it describes the input domain)
 	e.assume = e.tb.And(e.assume, e.tb.Cmp(OpSLE, e.tb.Int(lo), t), e.tb.Cmp(OpSLE, t, e.tb.Int(hi)))
 	return t
@@ -152,6 +156,9 @@ func (e *Engine) initIntrinsics() {
 	I["vp:vpAssert"] = func(e *Engine, a []Value, pos token.Pos, fn *ssa.Function) Value {
 		label := e.constStr(a[1], "vpAssert label")
 		e.asserts++
+		if os.Getenv("VERIF_DEBUG_TERMS") != "" {
+			fmt.Fprintf(os.Stderr, "terms=%d at %s (%s)\n", e.tb.NumTerms(), e.posStr(pos), label)
+		}
 		e.addObl("assert", label, pos, tb.Not(a[0].(*Term)))
 		// reachability twin
 		e.covers = append(e.covers, &Cover{Label: "reach:" + label, Pos: e.posStr(pos), Cond: e.G, Assume: e.assume})
@@ -230,6 +237,8 @@ func (e *Engine) initIntrinsics() {
 			e.opts.Unwind = v
 		case "maxalloc":
 			e.opts.MaxAlloc = v
+		case "mincap":
+			e.opts.MinCap = v
 		}
 		return nil
 	}
